@@ -45,7 +45,7 @@ theorem evalCσ_synced [Neg F] [OfNat F 0] [OfNat F 1] [Transc F] (W : World D S
   have hc := interpCall_congr W { W with bkg := fun _ _ => W.bkg st.data st.src } rfl rfl rfl rfl
     hit cfg st q
   cases st
-  simp only [evalCσ, evalC] at hc ⊢
+  simp only [evalCσ, evalC, bkgBlocks] at hc ⊢
   rw [hc]
 
 end congr
